@@ -1878,6 +1878,9 @@ class Walker:
             if k != "val":
                 outs.append((s, k, b))
                 continue
+            if isinstance(b, tuple) and len(b) == 3 and b[0] == "nt" and b[1] == "inspect.BoundArguments":
+                outs.append((s, "val", b[2][0] if e.attr == "arguments" else ("attr", b, e.attr)))
+                continue
             if isinstance(b, tuple) and len(b) == 3 and b[0] in ("obj", "nt", "enum") and not (b[0] == "nt" and b[1] in self.prog.classes and e.attr in [n_ for n_, _d in self.prog.classes[b[1]].nt_fields()]):
                 m_p0 = self.prog.find_method(b[1], e.attr)
                 if m_p0 is not None and m_p0[0] == "repo" and any(ast.unparse(d) in ("property", "functools.cached_property", "cached_property") for d in m_p0[1].node.decorator_list):
